@@ -346,6 +346,9 @@ func FieldMenu() []FieldVariant {
 	// an existing key the annotation does not mention whose value holds what a regexp template would expand (round 13)
 	add("F30-existing-value-with-dollar-templates", "Price string `layout:\"$${amount} USD $$x\" json:\"price\"` // @tag valid:\"required\"", true)
 	add("F30-existing-value-with-dollar-templates-overridden-neighbour", "Fee string `json:\"fee\" fmt:\"$$fee and $$ and $${1}0 $name ${1}\"` // @tag json:\"fee_cents\" valid:\"ge=$1\"", true)
+	// '@' inside injected values (JSON-LD keys, a default e-mail address); a second marker word inside a value (round 14)
+	add("F31-at-sign-in-values", "Ld string `json:\"id\"` // @tag json:\"@id\" default:\"nobody@example.com\" valid:\"required\"", true)
+	add("F31-marker-word-in-value", "Note string `json:\"note\"` // 备注 @tag doc:\"see @tag docs\" valid:\"to=1~9\"", true)
 	add("F17-key-suffix-of-existing", "KeySuffix string `binding_valid:\"required\" json:\"ks\"` // @tag valid:\"required\"", true)
 	add("F17-key-prefix-of-existing", "KeyPrefix string `json:\"kp\" validx:\"required\"` // @tag valid:\"required\" json:\"kp\"", true)
 	add("F18-value-held-by-other-key", "OtherKey string `xvalid:\"a\" valid:\"b\"` // @tag valid:\"a\"", true)
